@@ -55,6 +55,14 @@ FUNCS = {
     'arccosh': (lambda x: math.acosh(x), lambda x: 1.0 / math.sqrt(x * x - 1), (1.3, 8.0)),
     'arctanh': (lambda x: math.atanh(x), lambda x: 1.0 / (1 - x * x), (-0.8, 0.8)),
 }
+# regular regions far out in the domain, where mathematically equal forms of a derivative differ numerically (1 - tanh^2 against
+# 1 / cosh^2, exp differences, 1 / (1 + x^2) for huge x): the derivative used must be accurate to rounding everywhere in the domain
+EXTREME = {
+    'sqrt': [(1e-8, 1e-6), (1e6, 1e8)], 'log': [(1e-8, 1e-6), (1e6, 1e8)], 'exp': [(-30.0, -20.0), (20.0, 30.0)],
+    'sin': [(50.0, 60.0), (-60.0, -50.0)], 'cos': [(50.0, 60.0), (-60.0, -50.0)], 'tan': [(40.0, 41.6)],
+    'arctan': [(1e3, 1e4), (-1e4, -1e3)], 'sinh': [(15.0, 25.0), (-25.0, -15.0)], 'cosh': [(15.0, 25.0), (-25.0, -15.0)],
+    'tanh': [(5.0, 18.0), (-18.0, -5.0)], 'arcsinh': [(1e4, 1e6), (-1e6, -1e4)], 'arccosh': [(1e3, 1e5)],
+}
 MP_NAMES = {'arcsin': 'asin', 'arccos': 'acos', 'arctan': 'atan', 'arcsinh': 'asinh', 'arccosh': 'acosh', 'arctanh': 'atanh'}
 
 BINOPS = {
@@ -554,7 +562,15 @@ class PartFactory:
 
 def case_unary(ctx, rng, tier, name):
     f, df, dom = FUNCS[name]
-    layout = str(rng.choice(['one_ens', 'second_ensemble', 'cov']))
+    if name in EXTREME and rng.random() < 0.3:
+        dom = EXTREME[name][int(rng.integers(0, len(EXTREME[name])))]
+        ctx.count('L2_extreme_arguments')
+        ctx.cell('L2-extreme', name, '%g..%g' % dom)
+        extreme = True
+    else:
+        extreme = False
+    # (the second-ensemble and covariance parts of an operand are O(1): they would leave a narrow extreme domain)
+    layout = 'one_ens' if extreme else str(rng.choice(['one_ens', 'second_ensemble', 'cov']))
     o, _ = make_operand(rng, dom, tier, second_ens=(layout == 'second_ensemble'), with_cov=(layout == 'cov'))
     via = str(rng.choice(['numpy', 'method']))
     got = getattr(np, name)(o) if via == 'numpy' else getattr(o, name)()
@@ -1233,7 +1249,7 @@ def plan(tier):
     m = 4 if tier == 'quick' else 320
     p = []
     for name in FUNCS:
-        p.append(('un:' + name, 6 * m))
+        p.append(('un:' + name, 9 * m))
     for name in ('neg', 'abs', 'pos'):
         p.append(('na:' + name, 4 * m))
     for op in BINOPS:
